@@ -332,7 +332,7 @@ def is_zero_step(u):
     return (u[0] == "sl3" and (u[2] == 0 or u[3] == 0)) or (u[0] == "loop3" and (u[2] == 0 or u[3] == 0))
 
 
-def gen_cases(ctx):
+def gen_cases(ctx, cfg=None):
     rng = ctx.rng
     cases = []
     sizes = ctx.scaled([1, 2, 3], [1, 2, 3, 4, 5])
@@ -344,6 +344,10 @@ def gen_cases(ctx):
         rng.shuffle(L)
         cases += L[:ctx.scaled(45, 400)]
         T = dedup([{"n": n, "u": u} for u in three_1d(n)])
+        if cfg and cfg.get("mod3"):
+            # start:step:stop with a negative (non-literal) step is evaluated by get_integer in the repaired tree
+            T += [{"n": n, "u": ["loop3", a, -st, b, off]} for a in range(0, n + 3) for st in (1, 2, 3)
+                  for b in range(-1, n + 2) for off in (0, 0, 1, -1)]
         rng.shuffle(T)
         cases += T[:ctx.scaled(30, 500)]
         X = [{"n": n, "u": u} for u in loopx_1d(n)]
@@ -492,7 +496,7 @@ def run(ctx):
     except OSError:
         pass
     n_corpus = len(cases)
-    cases += gen_cases(ctx)
+    cases += gen_cases(ctx, cfg)
     results = run_children(ctx, [child_case(c) for c in cases])
     # (a) property oracle
     dist = {"int": 0, "colon": 0, "sl": 0, "sl3": 0, "loop": 0, "loop3": 0, "loopx": 0, "two_d": 0, "on_scalar": 0, "expected_error": 0,
